@@ -30,6 +30,10 @@ WriteViol(t) ==
                ELSE IF t.ret # Expected(t) /\ ~(t.order = "abandoned" /\ t.ret = "err") THEN {<<l, "WrongOutcome">>} ELSE {})
     [] t.path = "local-noquorum" ->     \* accepted by the leader, never committed: must not be acknowledged
          (IF t.ret = "ok" \/ t.after # t.before THEN {<<l, "FalseAck">>} ELSE {})
+    [] t.path = "local-unload" ->       \* the raft group is unloaded under a write that is about to propose
+         (IF t.ret = "panic" THEN {<<l, "HandlerPanic">>} ELSE {})
+         \cup (IF t.ret = "hang" THEN {<<l, "OutcomeLost">>} ELSE {})
+         \cup (IF t.ret = "ok" /\ t.kind = "insert" /\ t.after # 1 THEN {<<l, "FalseAck">>} ELSE {})
     [] t.path = "remote-ok" ->
          (IF t.ret = "ok" /\ t.remote = 1 THEN {} ELSE {<<l, "ProxyLost">>})
     [] t.path \in {"remote-err", "noaddr"} ->
